@@ -442,7 +442,7 @@ def h_bad_parameters(ctx):
 
 
 PARTS = [
-    Part("roundtrips", h_roundtrip, bound={"quick": 1, "thorough": 2}, split_depth=1, budget={"quick": 150, "thorough": 2400}),
+    Part("roundtrips", h_roundtrip, bound={"quick": 1, "thorough": 2}, split_depth=1, budget={"quick": 1500, "thorough": 2400}),
     Part("malformed-jwk", h_malformed, bound={"quick": 1, "thorough": 1}, split_depth=3),
     Part("invalid-parameters-on-native-keys", h_bad_parameters, split_depth=2),
 ]
